@@ -211,11 +211,18 @@ impl<'u> Tr<'u> {
         let mut t = Ty::Never;
         for arm in &m.arms {
             let arm: &Arm = arm;
-            if !cfg_keep(&arm.attrs) {
-                continue;
+            match cfg_state(&arm.attrs) {
+                Some(true) => {}
+                Some(false) => continue,
+                None => return self.err(arm.span(), "cfg predicate on a match arm is not decided (see cfg_features)"),
             }
             let mut env2 = env.clone();
-            let pat = self.pattern(&arm.pat, &st, &mut env2)?;
+            let pat = match self.pattern(&arm.pat, &st, &mut env2) {
+                Ok(p) => p,
+                // the arm can only match variants left out by enum_subset
+                Err(e) if e.excluded => continue,
+                Err(e) => return Err(e),
+            };
             let guard = match &arm.guard {
                 Some((_, g)) => Some(self.expr(g, &env2, Some(&Ty::Bool))?.0),
                 None => None,
@@ -387,6 +394,9 @@ impl<'u> Tr<'u> {
         let mut binders = Vec::new();
         let mut params = Vec::new();
         let mut has_self = false;
+        let mut partial = false;
+        let saved_opaque = std::mem::take(&mut self.opaque);
+        let r = (|| -> R<FnInfo> {
         for a in &sig.inputs {
             match a {
                 FnArg::Receiver(r) => {
@@ -394,19 +404,33 @@ impl<'u> Tr<'u> {
                         Some(s) => s.clone(),
                         None => return self.err(sp, "`self` outside an impl"),
                     };
+                    let t = self.named_ty(&st, sp)?;
                     if r.mutability.is_some() {
                         if r.reference.is_none() {
                             return self.err(sp, "`mut self` by value");
                         }
-                        env.mutating = true;
+                        // a view has no assignable field: `&mut self` on it can only reach state
+                        // through calls, which are either translated (and rejected if mutating) or opaque
+                        let is_view = matches!(self.types.get(&st), Some(TypeInfo::Rec(ri)) if ri.view);
+                        env.mutating = !is_view;
                     }
-                    let t = self.named_ty(&st, sp)?;
                     has_self = true;
                     binders.push(format!("(self : {})", t.coq()));
                     env.binds.push(Bind { rust: "self".into(), coq: "self".into(), ty: t, poisoned: None });
                 }
                 FnArg::Typed(pt) => {
-                    let t = self.ty(&pt.ty, self_ty.as_deref())?;
+                    let t = match self.ty(&pt.ty, self_ty.as_deref()) {
+                        Ok(t) => t,
+                        Err(e) => {
+                            // not translated: any use of it (other than as an argument of an opaque
+                            // call, which is not looked at) is an error
+                            let why = format!("parameter of type `{}`: {}", norm(&pt.ty), e.msg);
+                            self.poison_pattern(&pt.pat, &mut env, &why, pt.span())?;
+                            self.notes.push(format!("{key}: parameter `{}` is not translated ({})", norm(&pt.pat), e.msg));
+                            partial = true;
+                            continue;
+                        }
+                    };
                     let name = match &*pt.pat {
                         Pat::Ident(i) if i.subpat.is_none() => i.ident.to_string(),
                         Pat::Wild(_) => format!("unused{}", params.len()),
@@ -433,13 +457,31 @@ impl<'u> Tr<'u> {
             self.block(&body.stmts, &env, &K::Value(Some(ret.clone())))?
         };
         let rty = if env.mutating { Ty::Struct(self_ty.clone().unwrap()) } else { ret };
+        // opaque inputs in the order of the spec's opaque_calls list (not of occurrence, which a
+        // harmless rewrite may change)
+        let mut ops: Vec<(usize, String, Ty)> = self
+            .opaque
+            .iter()
+            .map(|(site, n, t)| {
+                let key = site.split('@').next().unwrap_or("");
+                (self.spec.opaque_calls.iter().position(|k| k == key).unwrap_or(usize::MAX), n.clone(), t.clone())
+            })
+            .collect();
+        ops.sort_by_key(|(i, _, _)| *i);
+        for (_, n, t) in &ops {
+            binders.push(format!("({n} : {})", t.coq()));
+            partial = true;
+        }
         let text = format!("Definition {coq} {} : {} :=\n  {}.", binders.join(" "), rty.coq(), g.render(2));
         let mut hashed = sig.to_token_stream();
         hashed.extend(body.to_token_stream());
         let origin = format!("{}:{} fn {key} {}", self.cur_file, sig.ident.span().start().line, tok_hash(hashed));
-        let fi = FnInfo { coq: coq.clone(), has_self, mutating: env.mutating, params, ret: rty };
+        let fi = FnInfo { coq: coq.clone(), has_self, mutating: env.mutating, params, ret: rty, partial };
         self.funcs.insert(key.to_owned(), fi.clone());
         self.emit(&coq, text, origin);
         Ok(fi)
+        })();
+        self.opaque = saved_opaque;
+        r
     }
 }
